@@ -492,7 +492,7 @@ theorem pktRun_leaf (f : Nat) (k : Kind) (hk : k ≠ .icmp6) (data : Bytes) :
   have hkind : (pureAny (fresh k) data).layer.kind = k := by
     rw [pureAny_kind]; cases k <;> rfl
   have hnext := next_of_not_icmp6 (pureAny (fresh k) data).layer (by rw [hkind]; exact hk)
-  rw [hnext]
+  simp only [hnext, if_true]
   split
   · exact ⟨_, rfl⟩
   · split <;> exact ⟨_, rfl⟩
@@ -506,7 +506,7 @@ theorem dlpRun_leaf (f : Nat) (k : Kind) (hk : k ≠ .icmp6) (o : Objs) (data : 
   have hkind : (pureAny (o.get k) data).layer.kind = k := by
     rw [pureAny_kind]; cases k <;> rfl
   have hnext := next_of_not_icmp6 (pureAny (o.get k) data).layer (by rw [hkind]; exact hk)
-  rw [hnext]
+  simp only [hnext, if_true]
   split
   · exact ⟨_, rfl⟩
   · split <;> exact ⟨_, rfl⟩
